@@ -524,7 +524,10 @@ func (idx *HNSWIndex) insertNode(node *hnswNode) {
 
 	// Insert and connect at each layer
 	for lc := node.Level; lc >= 0; lc-- {
-		candidates := idx.searchLayer(node.Vector(), curr, idx.efConstruction, lc)
+		// Soft-deleted nodes stay part of the graph until Flush, so a new node
+		// may link to them (otherwise it can end up unreachable from a
+		// soft-deleted entry point).
+		candidates := idx.searchLayer(node.Vector(), curr, idx.efConstruction, lc, true)
 
 		M := idx.M
 		if lc == 0 {
@@ -564,7 +567,10 @@ func (idx *HNSWIndex) insertNode(node *hnswNode) {
 // Gets heaps from sync.Pool and returns them when done to reduce allocations.
 //
 // CONCURRENCY: This is an internal helper method. The caller MUST hold at least a read lock.
-func (idx *HNSWIndex) searchLayer(query []float32, entryPoint uint32, ef int, layer int) []candidate {
+//
+// SOFT DELETES: soft-deleted nodes are still traversed (they keep the graph
+// connected until Flush) but are only reported when includeDeleted is true.
+func (idx *HNSWIndex) searchLayer(query []float32, entryPoint uint32, ef int, layer int, includeDeleted bool) []candidate {
 	// Track visited nodes using RoaringBitmap for efficiency
 	visited := roaring.New()
 
@@ -578,10 +584,10 @@ func (idx *HNSWIndex) searchLayer(query []float32, entryPoint uint32, ef int, la
 	result := newMaxHeap()
 	defer putMaxHeap(result) // Return to pool when done
 
-	// Check entry point BEFORE adding to candidates
-	if !idx.deletedNodes.Contains(entryPoint) {
-		d := idx.distance.Calculate(query, idx.nodes[entryPoint].Vector())
-		heap.Push(candidates, candidate{id: entryPoint, distance: d})
+	// The entry point is always explored; it is reported only if it is live
+	d := idx.distance.Calculate(query, idx.nodes[entryPoint].Vector())
+	heap.Push(candidates, candidate{id: entryPoint, distance: d})
+	if includeDeleted || !idx.deletedNodes.Contains(entryPoint) {
 		heap.Push(result, candidate{id: entryPoint, distance: d})
 	}
 	visited.Add(entryPoint)
@@ -598,11 +604,6 @@ func (idx *HNSWIndex) searchLayer(query []float32, entryPoint uint32, ef int, la
 		node := idx.nodes[current.id]
 		if layer < len(node.Edges) {
 			for _, neighborID := range node.Edges[layer] {
-				// SOFT DELETE CHECK: Skip deleted neighbors
-				if idx.deletedNodes.Contains(neighborID) {
-					continue
-				}
-
 				if !visited.Contains(neighborID) {
 					visited.Add(neighborID)
 
@@ -610,6 +611,11 @@ func (idx *HNSWIndex) searchLayer(query []float32, entryPoint uint32, ef int, la
 
 					if result.Len() < ef || d < (*result)[0].distance {
 						heap.Push(candidates, candidate{id: neighborID, distance: d})
+
+						// SOFT DELETE CHECK: deleted neighbors are traversed, not reported
+						if !includeDeleted && idx.deletedNodes.Contains(neighborID) {
+							continue
+						}
 						heap.Push(result, candidate{id: neighborID, distance: d})
 
 						if result.Len() > ef {
